@@ -131,6 +131,16 @@ def run(tier, seed, replay=None):
             if nrm(Pz2 - Pz) > TOL * sc: fails.append("a second P(x, z) differs from the first (argument overwritten?)")
             bad = solverkit.intact(snaps, [x, z, w])
             if bad: fails.append("operand modified: " + bad[0])
+            # the base point as an object that moves: cores edited in place between two projections (the optimiser idiom x.cores[k] += step): the second
+            # projection is the one at the point as it is now
+            if not tiny and i % 2 == 0:
+                xm = torchtt.TT([c.clone() for c in x.cores]); _ = P(xm, z)
+                gnp = np.random.default_rng(rng.randrange(1 << 30)); k_ = rng.randrange(d)
+                xm.cores[k_] += 0.4 * torch.tensor(gnp.standard_normal(tuple(xm.cores[k_].shape)), dtype=xm.cores[k_].dtype) * float(xm.cores[k_].abs().max())
+                Pm = P(xm, xm)
+                if nrm(Pm - xm) > TOL * nrm(xm): fails.append("P(x) != x after an in-place edit of a core of x: relative difference %.3g" % (nrm(Pm - xm) / nrm(xm)))
+                fresh = torchtt.TT([c.clone() for c in xm.cores])
+                if nrm(P(xm, z) - P(fresh, z)) > TOL * sc: fails.append("P(x, z) after an in-place edit of a core differs from the projection at a fresh copy of the same point")
             # Riemannian gradient = projection of the dense Euclidean gradient
             fam = rng.choice(["quadratic", "linear", "quartic"])
             tgt = mk(solverkit.ranks(rng, d, 2))
